@@ -781,6 +781,93 @@ fn do_type<T: H>(name: &str, rng: &mut Rng, count: usize, maxops: usize, thin: u
     }
 }
 
+/// Secondary traits on LARGE states (the random histories clone at counters below 2^16 only): for a counter
+/// boundary `b` of the family, from the hook-entered counters b-1 (the carry happens while absorbing), b, and b+5
+/// (above it: upper counter word / bytes non-zero): enter, absorb a little (3 bytes: buffered only; one block + 3),
+/// CLONE; original and clone are finished with the same tail: both digests must equal each other and the run
+/// without a clone; the clone's observable state must equal the original's; a `DynDigest::box_clone` likewise;
+/// `finalize_reset` on a second clone must return the digest of the state as it stands and leave an object that
+/// gives the digest of a new instance. Evaluated on the implementation only.
+fn clone_on_large_state<T: H>(name: &str, rng: &mut Rng, b: u128, failures: &mut Vec<String>, runs: &mut u64) {
+    let bs = T::BS;
+    for &e in &[b - 1, b, b + 5] {
+        for &little_len in &[3usize, bs + 3] {
+            let little = content(rng, little_len);
+            let tail = content(rng, 2 * bs + 7);
+            *runs += 1;
+            let prep = |h: &mut T| {
+                h.enter(e);
+                Digest::update(h, &little[..]);
+            };
+            let r = catch_unwind(AssertUnwindSafe(|| {
+                // without a clone
+                let mut h0 = T::default();
+                prep(&mut h0);
+                let here = Digest::finalize(h0.clone()).to_vec(); // (this clone is what is under test as well: compared below)
+                let mut h00 = T::default();
+                prep(&mut h00);
+                let here_noclone = Digest::finalize(h00).to_vec();
+                Digest::update(&mut h0, &tail[..]);
+                let d0 = Digest::finalize(h0).to_vec();
+                // with a clone
+                let mut h = T::default();
+                prep(&mut h);
+                let mut c = h.clone();
+                let same_state = same_obs(&h.obs(), &c.obs());
+                let mut c2 = h.clone();
+                let mut bx = digest::DynDigest::box_clone(&h);
+                Digest::update(&mut h, &tail[..]);
+                Digest::update(&mut c, &tail[..]);
+                bx.update(&tail[..]);
+                let d1 = Digest::finalize(h).to_vec();
+                let d2 = Digest::finalize(c).to_vec();
+                let d3 = bx.finalize().to_vec();
+                // finalize_reset on a clone, then reuse
+                let dr = Digest::finalize_reset(&mut c2).to_vec();
+                Digest::update(&mut c2, &tail[..]);
+                let reused = Digest::finalize(c2).to_vec();
+                let fresh = T::digest(&tail[..]).to_vec();
+                (here, here_noclone, d0, d1, d2, d3, same_state, dr, reused, fresh)
+            }))
+            .ok();
+            let problem: Option<String> = match &r {
+                None => Some("one of the calls panicked".to_string()),
+                Some((here, here_noclone, d0, d1, d2, d3, same_state, dr, reused, fresh)) => {
+                    if d1 != d0 {
+                        Some("the ORIGINAL finished after a clone was taken differs from the run without a clone".to_string())
+                    } else if d2 != d0 {
+                        Some("the CLONE finished with the same tail returns another digest than the original / the run without a clone".to_string())
+                    } else if d3 != d0 {
+                        Some("a DynDigest::box_clone finished with the same tail returns another digest than the original".to_string())
+                    } else if !same_state {
+                        Some("the clone's state (chaining value, counters, buffer) read back through the hook differs from the original's".to_string())
+                    } else if here != here_noclone {
+                        Some("finalize of a clone returns another digest than finalize of the object itself".to_string())
+                    } else if dr != here_noclone {
+                        Some("finalize_reset on a clone returns another digest than finalize of the object itself".to_string())
+                    } else if reused != fresh {
+                        Some("a clone after finalize_reset, reused, does not return the digest a new instance returns".to_string())
+                    } else {
+                        None
+                    }
+                }
+            };
+            if let Some(pb) = problem {
+                if failures.len() < 6 {
+                    let hx = |v: Option<&Vec<u8>>| v.map(|x| jstr(&hex(x))).unwrap_or("null".to_string());
+                    let t = r.as_ref();
+                    failures.push(format!(
+                        "{{\"failure\":{},\"case\":{{\"type\":{},\"entered_blocks\":\"{}\",\"boundary_blocks\":\"{}\",\"absorbed_before_the_clone\":{},\"tail\":{},\"digest_without_clone\":{},\"digest_original\":{},\"digest_clone\":{},\"digest_box_clone\":{},\"finalize_reset_on_clone\":{},\"finalize_of_the_object\":{},\"reused_after_finalize_reset\":{},\"new_instance\":{}}}}}",
+                        jstr(&format!("{}: state entered at {} compressed blocks (counter boundary {}), {} bytes absorbed, then cloned: {}", name, e, b, little_len, pb)),
+                        jstr(name), e, b, jstr(&hex(&little)), jstr(&hex(&tail)),
+                        hx(t.map(|x| &x.2)), hx(t.map(|x| &x.3)), hx(t.map(|x| &x.4)), hx(t.map(|x| &x.5)), hx(t.map(|x| &x.7)), hx(t.map(|x| &x.1)), hx(t.map(|x| &x.8)), hx(t.map(|x| &x.9))
+                    ));
+                }
+            }
+        }
+    }
+}
+
 /// C08 next to a counter carry: from a state entered `k` blocks before a boundary of the
 /// family (hook H2; the chaining value is the initial one), absorb a tail that crosses the
 /// boundary under several partitions into update calls; every partition must give the digest
@@ -788,6 +875,7 @@ fn do_type<T: H>(name: &str, rng: &mut Rng, count: usize, maxops: usize, thin: u
 fn boundary_partitions<T: H>(name: &str, rng: &mut Rng, failures: &mut Vec<String>, runs: &mut u64) {
     let bs = T::BS;
     for &b in T::BOUNDARIES {
+        clone_on_large_state::<T>(name, rng, b, failures, runs);
         for k in 1..=2u128 {
             for &r in &[0usize, 1, bs - 1] {
                 let tail = content(rng, (k as usize + 2) * bs + r);
